@@ -169,24 +169,49 @@ class CaseLog:
         return d
 
 
+class CaseTimeout(Exception):
+    pass
+
+
+def _alarm(signum, frame):
+    raise CaseTimeout()
+
+
 def _run_case(args):
+    import signal
+
     pid, name, modname, fname, kwargs, sd = args
     t0 = time.time()
+    try:
+        limit = int(os.environ.get("VERIF_CASE_TIMEOUT", "0")) or (1500 if tier() == "quick" else 5400)
+        signal.signal(signal.SIGALRM, _alarm)
+        signal.alarm(limit)
+    except Exception:
+        limit = 0
     rng = random.Random("%s/%s/%d" % (pid, name, sd))
     log = CaseLog(name, pid, rng)
     S.reset_stats()
     try:
         mod = sys.modules.get(modname) or __import__(modname, fromlist=["x"])
         getattr(mod, fname)(log, **kwargs)
+    except CaseTimeout:
+        log.inconclusive.append("%s: case exceeded its time limit of %d s (bound too deep for this tier)" % (name, limit))
     except (SymbolicEscape, EngineError, S.PathBudgetExceeded) as e:
         log.inconclusive.append("%s: %s: %s" % (name, type(e).__name__, e))
         log.notes.append(traceback.format_exc()[-1500:])
     except Exception as e:
         log.inconclusive.append("%s: unexpected %s: %s" % (name, type(e).__name__, e))
         log.notes.append(traceback.format_exc()[-2500:])
+    try:
+        signal.alarm(0)
+    except Exception:
+        pass
     d = log.export()
     d["stats"] = dict(S.STATS)
     d["wall_s"] = time.time() - t0
+    sys.stderr.write("[%s] case %s done in %.1fs: %d obligations, %d violations, %d inconclusive\n"
+                     % (pid, name, d["wall_s"], len(d["obligations"]), len(d["violations"]), len(d["inconclusive"])))
+    sys.stderr.flush()
     return d
 
 
